@@ -16,9 +16,11 @@ package verifsim
 import (
 	"fmt"
 	"net/http"
+	"net/url"
 	"os"
 	"runtime"
 	"sort"
+	"strconv"
 	"strings"
 	"sync"
 	"sync/atomic"
@@ -56,6 +58,7 @@ func runCase(c Case) (res simResult) {
 	stats.Init()
 	base, _ := stats.GetMapTUI()["Finished seeds"].(uint64) // totals are lifetime totals: compare deltas
 	baseURLs, _ := stats.GetMapTUI()["Total URL crawled"].(uint64)
+	baseCodes := stats.VerifStatusCodeTotals()
 	p, err := Start(c.Settings, c.Site, dir)
 	if err != nil {
 		return simResult{Viol: "harness: start: " + err.Error(), Facet: "harness"}
@@ -652,6 +655,35 @@ func runCase(c Case) (res simResult) {
 	}
 	if v, _ := m["Total URL crawled"].(uint64); int(v-baseURLs) != p.Net.Requests() {
 		return fail("C17/gauges", "stats report %d URLs crawled, the archiver worked on %d items (distinct request objects that reached the network, %d requests with retries)", v-baseURLs, p.Net.Requests(), len(log))
+	}
+	// per-status-code totals: one event per response that archive() accepted (not retried, body read to the end)
+	wantCodes := map[string]uint64{}
+	for _, f := range log {
+		if f.Status == 0 || f.Challenge || retried(f.Status) {
+			continue
+		}
+		if r := c.Site.Get(f.URL); r != nil {
+			if r.Kind == "redirect" && r.Loc != "" && f.Status != 300 && f.Status >= 300 && f.Status < 400 {
+				if _, err := url.Parse(r.Loc); err != nil {
+					continue // net/http refuses the response: archive() sees a transport error
+				}
+			}
+			if r.BodyErr && f.Status == 200 {
+				continue // the body breaks off: the item fails before it is counted
+			}
+		}
+		wantCodes[strconv.Itoa(f.Status)]++
+	}
+	nowCodes := stats.VerifStatusCodeTotals()
+	for code := range nowCodes {
+		if _, ok := wantCodes[code]; !ok {
+			wantCodes[code] += 0
+		}
+	}
+	for code, want := range wantCodes {
+		if got := nowCodes[code] - baseCodes[code]; got != want {
+			return fail("C17/gauges", "the per-status-code total of %s grew by %d during this run, %d response(s) with that status were accepted by the archiver", code, got, want)
+		}
 	}
 	for _, k := range []string{"Preprocessor routines", "Archiver routines", "Postprocessor routines"} {
 		if v, _ := m[k].(uint64); int(v) != c.Settings.Workers {
